@@ -283,6 +283,15 @@ void MEDDLY::node_headers::sweepAllInCacheBits()
 
 // ******************************************************************
 
+#ifdef MEDDLY_VERIF
+MEDDLY::verif::handle_hook MEDDLY::verif::on_handle = nullptr;
+
+#define VERIF_HANDLE_EVENT(EV, H) \
+    if (verif::on_handle) verif::on_handle(&parent, EV, long(H), \
+        incoming_counts ? incoming_counts->get(size_t(H)) : 0, \
+        cache_counts ? cache_counts->get(size_t(H)) : 0)
+#endif
+
 MEDDLY::node_handle MEDDLY::node_headers::getFreeNodeHandle()
 {
     mstats.incMemUsed(h_bits/8);
@@ -314,6 +323,9 @@ MEDDLY::node_handle MEDDLY::node_headers::getFreeNodeHandle()
             << " using recycled handle " << found << std::endl;
 #endif
         a_freed--;
+#ifdef MEDDLY_VERIF
+        VERIF_HANDLE_EVENT(verif::HANDLE_ISSUED, found);
+#endif
         return found;
     }
 
@@ -353,6 +365,9 @@ MEDDLY::node_handle MEDDLY::node_headers::getFreeNodeHandle()
         std::cerr << "Forest " << parent.FID()
             << " using swept handle " << found << std::endl;
 #endif
+#ifdef MEDDLY_VERIF
+        VERIF_HANDLE_EVENT(verif::HANDLE_ISSUED, found);
+#endif
         return found;
     }
 
@@ -374,6 +389,9 @@ MEDDLY::node_handle MEDDLY::node_headers::getFreeNodeHandle()
     std::cerr << "Forest " << parent.FID()
         << " using end handle " << a_last << std::endl;
 #endif
+#ifdef MEDDLY_VERIF
+    VERIF_HANDLE_EVENT(verif::HANDLE_ISSUED, a_last);
+#endif
     return a_last;
 }
 
@@ -389,6 +407,10 @@ void MEDDLY::node_headers::recycleNodeHandle(node_handle p)
 #ifdef DEBUG_HANDLE_MGT
     std::cerr << "Forest " << parent.FID()
         << " recycling handle " << p << std::endl;
+#endif
+
+#ifdef MEDDLY_VERIF
+    VERIF_HANDLE_EVENT(verif::HANDLE_RECYCLED, p);
 #endif
 
     mstats.decMemUsed(h_bits/8);
